@@ -348,17 +348,26 @@ pub fn execute_digests(sc: &DScenario) -> (Vec<DFinding>, u64, bool) {
 
 // ---- compile-time builders as child processes ------------------------------------------------
 
+/// Returns (exit code or None if killed by a signal, signal if any, result).
 pub fn run_build_child(exe: &Path, spec: &BuildSpec, scratch: &Path, tag: &str) -> (Option<i32>, Option<BuildResult>) {
+    let (c, _sig, r) = run_build_child_sig(exe, spec, scratch, tag);
+    (c, r)
+}
+
+pub fn run_build_child_sig(exe: &Path, spec: &BuildSpec, scratch: &Path, tag: &str) -> (Option<i32>, Option<i32>, Option<BuildResult>) {
+    use std::os::unix::process::ExitStatusExt;
     let sp = scratch.join(format!("spec-{tag}.json"));
-    let rp = scratch.join(format!("result-{tag}.json"));
-    let _ = std::fs::remove_file(&rp);
     std::fs::write(&sp, serde_json::to_string(spec).unwrap()).expect("write spec");
-    let st = Command::new(exe).args(["build-step", sp.to_str().unwrap(), rp.to_str().unwrap()]).stdin(Stdio::null()).stdout(Stdio::null()).stderr(Stdio::null()).status();
-    let code = st.ok().and_then(|s| s.code());
-    let res = std::fs::read_to_string(&rp).ok().and_then(|s| serde_json::from_str::<BuildResult>(&s).ok());
+    let out = Command::new(exe).args(["build-step", sp.to_str().unwrap(), "-"]).stdin(Stdio::null()).stdout(Stdio::piped()).stderr(Stdio::null()).output();
     let _ = std::fs::remove_file(&sp);
-    let _ = std::fs::remove_file(&rp);
-    (code, res)
+    match out {
+        Ok(o) => {
+            let text = String::from_utf8_lossy(&o.stdout);
+            let res = text.lines().rev().find_map(|l| l.strip_prefix("BUILD-RESULT ")).and_then(|j| serde_json::from_str::<BuildResult>(j).ok());
+            (o.status.code(), o.status.signal(), res)
+        }
+        Err(_) => (None, None, None),
+    }
 }
 
 /// One grammar built by `seeds.len()` child processes into separate output directories.
